@@ -147,6 +147,7 @@ type State struct {
 	underHavoc []*Term
 	qfacts []qfact
 	qdone  map[string]bool
+	colW   []wrec // writes performed on this path while collecting a loop's write set
 }
 
 func (s *State) clone() *State {
@@ -160,6 +161,7 @@ func (s *State) clone() *State {
 	c.pc = append([]*Term(nil), s.pc...)
 	c.havocEpoch = s.havocEpoch
 	c.qfacts = append([]qfact(nil), s.qfacts...)
+	c.colW = append([]wrec(nil), s.colW...)
 	c.qdone = make(map[string]bool, len(s.qdone))
 	for k, v := range s.qdone {
 		c.qdone[k] = v
